@@ -1,11 +1,210 @@
-(* C11 -- stub, completed in the final version *)
-From Coq Require Import List Arith Bool ZArith.
-From PD Require Import Base.Field Base.Matrix Model.Poly Base.Series Spec.ODESeries Model.Jet Model.JetLift Proofs.JetLiftProofs.
+(* C11 -- Jet-lifting and constraint constructors differentiate constraints exactly.
 
+   Statements only; every theorem is closed by [exact <lemma>] (lemmas in
+   Proofs/JetLiftProofs.v) and followed by Print Assumptions.
+
+   Model (Model/JetLift.v): JetAbstract.lift (range check, tcoeffs = coords[:k+m],
+   args_autonomous_and_jet_compatible incl. the (t,1,0,..) time series, direct
+   call when there are no series, else jax.experimental.jet with DERIVATIVES in
+   and out), jet_lift / jet_lift_max bookkeeping, residual_from_ode,
+   residual_from_stack.  A jet function is a program run in a ring of truncated
+   power series ([jf_body N env]); polynomial programs ([jf_of_polys k d ps]:
+   len(ps) outputs over the variables x_{j,b}, index j*d+b, j < k, and t, index
+   k*d) run by series composition (Base/Series.v).  The linearisations are the
+   [linearize] of Model/Solver.v.  F is any field of characteristic 0; nothing is
+   bounded (degree, d, k >= 1, lift order m). *)
+From Coq Require Import List Arith Bool ZArith.
+From PD Require Import Base.Field Base.Matrix Base.Solve Model.Poly Base.Series Spec.ODESeries
+  Model.Jet Model.JetLift Model.Gauss Model.Prior Model.Solver Proofs.JetProofs Proofs.JetLiftProofs.
+Import ListNotations.
+Local Open Scope nat_scope.
+
+(* T11.1  The lift of a polynomial function of k jet coordinates by m returns,
+   for l = 0..m, the values of the iterated TOTAL TIME DERIVATIVE D_t^l f at the
+   supplied Taylor coefficients x_0 .. x_{k+m-1} and t, where (Spec/ODESeries.v)
+       D_t g = dg/dt + sum_{j,b} dg/dx_{j,b} * x_{j+1,b}
+   ([total_deriv], computed on polynomial data over K = k+m coordinates, f being
+   embedded by [embed_poly]) -- the derivatives of tau |-> f(u(tau), .., t + tau)
+   along ANY curve with these Taylor coefficients, explicit t included.
+   Hypotheses: at least k+m coefficient vectors of d entries, exponent vectors
+   of length k*d + 1. *)
+Theorem C11_lift_returns_the_total_time_derivatives :
+  forall (F : Type) (H : FieldOps F) (FL : FieldLaws F)
+         (k d : nat) (ps : list (@poly F)) (m : nat) (coords : list (list F)) (t : F),
+    1 <= k -> k + m <= length coords ->
+    (forall j, j < k + m -> length (nth j coords []) = d) ->
+    (forall p, In p ps -> forall mo, In mo p -> length (snd mo) = S (k * d)) ->
+    lift (jf_of_polys k d ps) (Z.of_nat m) coords t = Some (lift_spec k d ps m coords t).
+Proof. exact @lift_is_total_derivative. Qed.
+
+(* T11.2  The range check is exactly 0 <= lift_by <= len(coords) - k ... *)
 Theorem C11_lift_accepts_iff_range :
   forall (k ncoords : nat) (lift_by : Z),
     lift_accepts k ncoords lift_by = true <->
     (0 <= lift_by /\ lift_by <= Z.of_nat ncoords - Z.of_nat k)%Z.
 Proof. exact P_lift_accepts_iff. Qed.
 
+(* ... and the lifted function (of ANY jet function with k >= 1 inputs) returns a
+   value iff lift_by is in that range; otherwise it raises (None). *)
+Theorem C11_lift_raises_exactly_outside_the_range :
+  forall (F : Type) (H : FieldOps F)
+         (jf : @jetfun F) (lift_by : Z) (coords : list (list F)) (t : F),
+    1 <= jf_k jf ->
+    (lift jf lift_by coords t <> None <->
+     (0 <= lift_by /\ lift_by <= Z.of_nat (length coords) - Z.of_nat (jf_k jf))%Z).
+Proof. exact @lift_some_iff. Qed.
+
+(* T11.3  residual_from_ode(ode), evaluated on k+1 coordinates, is
+   x_k - f(x_0, .., x_{k-1}, t) (component-wise on the first d entries), for ANY
+   jet function f. *)
+Theorem C11_residual_from_ode_is_top_coordinate_minus_f :
+  forall (F : Type) (H : FieldOps F)
+         (o : @jetfun F) (coords : list (list F)) (t : F),
+    length coords = S (jf_k o) ->
+    jf_eval (residual_from_ode_jf o) coords t
+    = Some (zipw (fun x y => fsub x y)
+                 (map (fun b => vget (nth (jf_k o) coords []) b) (seq 0 (jf_d o)))
+                 (run_plain o (firstn (jf_k o) coords) t)).
+Proof. exact @residual_from_ode_value. Qed.
+
+(* T11.3 (lift)  Lifting residual_from_ode(ode) by m equals lifting both parts: output l
+   is x_{k+l} - (l-th output of the lifted right-hand side), for ANY jet function f. *)
+Theorem C11_residual_from_ode_lift_is_the_lift_of_both_parts :
+  forall (F : Type) (H : FieldOps F) (FL : FieldLaws F)
+         (o : @jetfun F) (m : nat) (coords : list (list F)) (t : F) (outs : list (list F)),
+    1 <= jf_k o -> jf_k o + 1 + m <= length coords ->
+    lift o (Z.of_nat m) coords t = Some outs ->
+    lift (residual_from_ode_jf o) (Z.of_nat m) coords t
+    = Some (zipw (zipw (fun x y => fsub x y))
+                 (map (fun l => map (fun b => vget (nth (jf_k o + l) coords []) b) (seq 0 (jf_d o)))
+                      (seq 0 (S m)))
+                 outs).
+Proof. exact @residual_lift_is_lift_of_parts. Qed.
+
+(* T11.4  A stacked residual evaluates each part on its own prefix of the
+   coefficients (and on nothing else), and advertises the maximal order. *)
+Theorem C11_stack_evaluates_each_part_on_its_own_prefix :
+  forall (F : Type)
+         (parts : list (@resfun F)) (coords : list (list F)) (t : F)
+         (vals : list (list (list F))),
+    stack_eval parts coords t = Some vals <->
+    Forall2 (fun r x => rf_eval r (firstn (rf_k r) coords) t = Some x) parts vals.
+Proof. exact @stack_evaluates_each_part_on_its_prefix. Qed.
+
+Theorem C11_stack_order_is_the_maximum :
+  forall (F : Type) (parts : list (@resfun F)),
+    (forall r, In r parts -> rf_k r <= rf_k (residual_from_stack parts)) /\
+    (parts <> [] -> exists r, In r parts /\ rf_k r = rf_k (residual_from_stack parts)).
+Proof. exact (fun F parts => conj (@stack_k_upper F parts) (@stack_k_attained F parts)). Qed.
+
+(* T11.5  Linearisation (Model/Solver.v [linearize]; g_a = x_{k,a} - f_a, [g_eval];
+   dg_a/dx_{i,b} = [dg_eval] = delta - (d f_a / d x_{i,b}) evaluated by [diff_poly];
+   xi = the mean of the Gaussian, [coeff]).
+
+   dense: one conditional; A is the FULL Jacobian of g at xi; the conditional
+   mean A xi + b (the model's own [c_apply]) is g(xi); Q = damp^2 I. *)
+Theorem C11_linearize_dense_ts1 :
+  forall (F : Type) (H : FieldOps F) (FL : FieldLaws F)
+         (q d : nat) (o : @odeP F) (damp2 : F) (m : list (@normal F)) (t : F),
+    let s := mkShape Dense q d in
+    let K := nth 0 (linearize s o TS1 damp2 m t) dflt_cond in
+    length (linearize s o TS1 damp2 m t) = 1 /\
+    (forall r col, r < d -> col < sh_N s ->
+       mget (c_A K) r col = dg_eval s o m t r (col / d) (col mod d)) /\
+    (forall r, r < d ->
+       mget (n_mean (c_apply (sh_N s) d 1 K (n_mean (nth_normal m 0)))) r 0 = g_eval s o m t r) /\
+    c_Q K = noise_cov d damp2.
+Proof. exact @linearize_dense_ts1. Qed.
+
+(* TS0: A selects the rows of the k-th derivative, b = - f(xi). *)
+Theorem C11_linearize_dense_ts0 :
+  forall (F : Type) (H : FieldOps F)
+         (q d : nat) (o : @odeP F) (damp2 : F) (m : list (@normal F)) (t : F),
+    let s := mkShape Dense q d in
+    let K := nth 0 (linearize s o TS0 damp2 m t) dflt_cond in
+    length (linearize s o TS0 damp2 m t) = 1 /\
+    (forall r col, r < d -> col < sh_N s -> mget (c_A K) r col = delta (ode_k o * d + r) col) /\
+    (forall r, r < d -> mget (c_b K) r 0 = fopp (f_eval s o m t r)) /\
+    c_Q K = noise_cov d damp2.
+Proof. exact @linearize_dense_ts0. Qed.
+
+(* isotropic: one (1 x (q+1)) row shared by all dimensions: the TRACE AVERAGE
+   (1/d) sum_a dg_a/dx_{i,a}; the conditional mean is g(xi) in every dimension. *)
+Theorem C11_linearize_isotropic_ts1 :
+  forall (F : Type) (H : FieldOps F) (FL : FieldLaws F)
+         (q d : nat) (o : @odeP F) (damp2 : F) (m : list (@normal F)) (t : F),
+    let s := mkShape Iso q d in
+    let K := nth 0 (linearize s o TS1 damp2 m t) dflt_cond in
+    length (linearize s o TS1 damp2 m t) = 1 /\
+    (forall i, i < S q ->
+       mget (c_A K) 0 i = fdiv (vsum d (fun a => dg_eval s o m t a i a)) (fnat d)) /\
+    (forall a, a < d ->
+       mget (n_mean (c_apply (S q) 1 d K (n_mean (nth_normal m 0)))) 0 a = g_eval s o m t a) /\
+    c_Q K = noise_cov 1 damp2.
+Proof. exact @linearize_iso_ts1. Qed.
+
+Theorem C11_linearize_isotropic_ts0 :
+  forall (F : Type) (H : FieldOps F)
+         (q d : nat) (o : @odeP F) (damp2 : F) (m : list (@normal F)) (t : F),
+    let s := mkShape Iso q d in
+    let K := nth 0 (linearize s o TS0 damp2 m t) dflt_cond in
+    length (linearize s o TS0 damp2 m t) = 1 /\
+    (forall i, i < S q -> mget (c_A K) 0 i = delta (ode_k o) i) /\
+    (forall a, a < d -> mget (c_b K) 0 a = fopp (f_eval s o m t a)) /\
+    c_Q K = noise_cov 1 damp2.
+Proof. exact @linearize_iso_ts0. Qed.
+
+(* block-diagonal: d conditionals; block a carries the PER-DIMENSION DIAGONAL
+   entries dg_a/dx_{i,a}; its conditional mean is g_a(xi). *)
+Theorem C11_linearize_blockdiag_ts1 :
+  forall (F : Type) (H : FieldOps F) (FL : FieldLaws F)
+         (q d : nat) (o : @odeP F) (damp2 : F) (m : list (@normal F)) (t : F) (a : nat),
+    let s := mkShape BlockDiag q d in
+    let K := nth a (linearize s o TS1 damp2 m t) dflt_cond in
+    a < d ->
+    length (linearize s o TS1 damp2 m t) = d /\
+    (forall i, i < S q -> mget (c_A K) 0 i = dg_eval s o m t a i a) /\
+    mget (n_mean (c_apply (S q) 1 1 K (n_mean (nth_normal m a)))) 0 0 = g_eval s o m t a /\
+    c_Q K = noise_cov 1 damp2.
+Proof. exact @linearize_blockdiag_ts1. Qed.
+
+Theorem C11_linearize_blockdiag_ts0 :
+  forall (F : Type) (H : FieldOps F)
+         (q d : nat) (o : @odeP F) (damp2 : F) (m : list (@normal F)) (t : F) (a : nat),
+    let s := mkShape BlockDiag q d in
+    let K := nth a (linearize s o TS0 damp2 m t) dflt_cond in
+    a < d ->
+    length (linearize s o TS0 damp2 m t) = d /\
+    (forall i, i < S q -> mget (c_A K) 0 i = delta (ode_k o) i) /\
+    mget (c_b K) 0 0 = fopp (f_eval s o m t a) /\
+    c_Q K = noise_cov 1 damp2.
+Proof. exact @linearize_blockdiag_ts0. Qed.
+
+(* the Jacobian entries used above are derivatives: for every polynomial p, point x
+   and direction h, the tau-coefficient of p(x + tau h) (composition in the ring
+   of formal power series) is sum_v (d p/d x_v)(x) h_v with d p/d x_v = [diff_poly v p] *)
+Theorem C11_diff_poly_is_the_directional_derivative :
+  forall (F : Type) (H : FieldOps F) (FL : FieldLaws F)
+         (p : @poly F) (xs hs : list F),
+    fs_compose (map (fun v => fun n => match n with
+                                       | 0 => nth v xs f0 | 1 => nth v hs f0 | _ => f0
+                                       end)
+                    (seq 0 (length xs))) p 1
+    = fold_right (fun v acc => fadd (fmul (eval_poly xs (diff_poly v p)) (nth v hs f0)) acc) f0
+                 (seq 0 (length xs)).
+Proof. exact @diff_poly_is_directional_derivative. Qed.
+
+Print Assumptions C11_lift_returns_the_total_time_derivatives.
 Print Assumptions C11_lift_accepts_iff_range.
+Print Assumptions C11_lift_raises_exactly_outside_the_range.
+Print Assumptions C11_residual_from_ode_is_top_coordinate_minus_f.
+Print Assumptions C11_residual_from_ode_lift_is_the_lift_of_both_parts.
+Print Assumptions C11_stack_evaluates_each_part_on_its_own_prefix.
+Print Assumptions C11_stack_order_is_the_maximum.
+Print Assumptions C11_linearize_dense_ts1.
+Print Assumptions C11_linearize_dense_ts0.
+Print Assumptions C11_linearize_isotropic_ts1.
+Print Assumptions C11_linearize_isotropic_ts0.
+Print Assumptions C11_linearize_blockdiag_ts1.
+Print Assumptions C11_linearize_blockdiag_ts0.
+Print Assumptions C11_diff_poly_is_the_directional_derivative.
